@@ -93,6 +93,8 @@ func driveC17(t *testing.T, out *vEmitter) {
 		"/files/plain.txt", "/files/release%20notes.txt", "/files/r%C3%A9sum%C3%A9.txt", "/files/a+b.txt", "/files/nope.txt",
 		// an encoded slash sitting exactly on the boundary of a configured path: with raw-path proxying the choice is made on the path as sent
 		"/a/b%2Fx", "/a%2Fb/x", "/a/b%2Fc", "/a%2Fb%2Fc", "/a/b%2fc/", "/api%2Fv2/x", "/api/v2%2Fitems", "/exact%2F", "/ab%2F",
+// re-spellings of the proxy's own probe paths: only the literal /ping and /ready are the proxy's, these belong to the upstream
+		"/pin%67", "/%70ing?a=1", "/read%79", "/%72eady", "/p%69ng/x",
 		"/static-resp/x", "/a/", "/a/x", "/ab/x", "/a/b/x", "/a/b/c", "/a/b/c/", "/a/b/cd", "/nohost/x", "/a", "/ab", "/new/direct"}
 	queries := []string{"", "?q=1&r=a+b%20c", "?", "?x=%2F&y=%3D;z"}
 	for si, set := range sets {
